@@ -213,6 +213,14 @@ def py_mon_C04(c):
         return ("the handlers that ran (%s) were chosen for outcome %s, which contradicts the final node table %s%s"
                 % ([HTEXT[h] for h in started], " or ".join(ST.get(s, "?") for s in cands), [ST.get(x) for x in fin],
                    " (a stop had been requested)" if stop_any else ""), {"kind": "outcome"})
+    if not stop_any and not timed_out and not c.get("hung"):
+        want_err = any(x == 2 for x in fin)
+        if bool(c["err"]) != want_err:
+            failing = [HTEXT[e["i"]] for e in evs if e["e"] == "he" and not e.get("ok", False)]
+            return ("Schedule returned %s although %s (handlers that failed: %s): the run's error must follow the steps, "
+                    "not the lifecycle handlers" % ("an error" if c["err"] else "no error",
+                                                    "no step failed" if not want_err else "a step failed", failing or "none"),
+                    {"kind": "run-error"})
     if c["status"] not in good:
         late = any(e["e"] == "sc" and e["t"] > last_step_t for e in evs)
         return ("the handlers were chosen for outcome '%s' (%s ran) but the run is reported '%s' when Schedule returns"
@@ -335,7 +343,7 @@ def rerun2(ctx, tool, cases, name="rerun2"):
         for c in cases:
             f.write(json.dumps(inputs_of2(c)) + "\n")
     p = os.path.join(ctx.scratch, name + "-out.jsonl")
-    rc, out, dt = vlib.run_tool(tool, [p, "replay", p_in], timeout=1200)
+    rc, out, dt = vlib.run_tool(tool, [p, "replay", p_in], timeout=420)
     return sched_lib.usable(vlib.read_jsonl(p)) if rc == 0 else []
 
 
@@ -405,6 +413,10 @@ def evaluate2(ctx, pid, tool, cases, tag):
     accepted = 0
     for pos, c in enumerate(cases):
         v = bad.get(pos, [0, 0, 0, 1, 1])
+        if c.get("hung") and pid != "C05":
+            ctx.fail("correspondence", "%s: the run did not terminate: Schedule had not returned after the watchdog time (%s)"
+                     % (pid, c.get("note") or ""), c, cls={"kind": "hung", "stream": c["stream"]})
+            continue
         r = mon(c)
         coq_ok = v[MON_POS2[pid]] == 1
         if r is not None:
@@ -490,6 +502,10 @@ def run_family2(ctx, pid, replay_cases=None):
     else:
         cases = rerun2(ctx, tool, replay_cases, "replay")
     lost = [c for c in cases if not c.get("final")]
+    skipped = [c for c in lost if (c.get("note") or "").startswith("skipped:")]
+    lost = [c for c in lost if c not in skipped]
+    if skipped:
+        ctx.notes.append("%d generated case(s) were not run: %s" % (len(skipped), skipped[0]["note"]))
     if lost:
         ctx.fail("correspondence", "the driver could not run %d generated case(s): %s" % (len(lost), (lost[0].get("note") or "")[:200]),
                  inputs_of2(lost[0]))
